@@ -141,6 +141,25 @@ func (b *Built) build(e *Expr, h *Hooks) parsley.Parser {
 				return inner.Parse(ctx, lrc, pos)
 			})
 		}
+	case OpLit:
+		if b.leaves == nil {
+			b.leaves = map[int]parsley.Parser{}
+		}
+		k := -10 - int(e.C)
+		if b.leaves[k] == nil || !h.ShareLeaves {
+			b.leaves[k] = NewLitParser(int(e.C))
+		}
+		p = b.leaves[k]
+		if h.Budget != nil {
+			inner, budget := p, h.Budget
+			p = parser.Func(func(ctx *parsley.Context, lrc data.IntMap, pos parsley.Pos) (parsley.Node, data.IntSet, parsley.Error) {
+				budget(ctx)
+				return inner.Parse(ctx, lrc, pos)
+			})
+		}
+		if h.Leaf != nil {
+			p = h.Leaf(e, p)
+		}
 	case OpEmpty:
 		p = parser.Empty()
 	case OpEnd:
@@ -228,7 +247,7 @@ func (b *Built) build(e *Expr, h *Hooks) parsley.Parser {
 	if h.Around != nil {
 		p = h.Around(e, p)
 	}
-	if h.ShareExprs && h.NameOf == nil && e.Op != OpRune && e.Op != OpKw && e.Op != OpMark && e.Op != OpStr && e.Op != OpEmpty && e.Op != OpEnd && e.Op != OpNT {
+	if h.ShareExprs && h.NameOf == nil && e.Op != OpRune && e.Op != OpKw && e.Op != OpMark && e.Op != OpStr && e.Op != OpLit && e.Op != OpEmpty && e.Op != OpEnd && e.Op != OpNT {
 		if b.shared == nil {
 			b.shared = map[string]parsley.Parser{}
 		}
@@ -522,6 +541,28 @@ func render(sb *strings.Builder, n parsley.Node, base int, depth int) {
 		} else {
 			fmt.Fprintf(sb, "?%T@%d-%d", n, int(n.Pos())-base, int(n.ReaderPos())-base)
 		}
+	}
+}
+
+// NewLitParser builds the library's typed terminal of the given kind (index into LitKinds)
+func NewLitParser(kind int) parsley.Parser {
+	switch LitKinds[kind].Name {
+	case "integer":
+		return terminal.Integer(nil)
+	case "float":
+		return terminal.Float(nil)
+	case "bool":
+		return terminal.Bool(nil, "true", "false")
+	case "nil":
+		return terminal.Nil(nil, "nil")
+	case "char":
+		return terminal.Char(nil)
+	case "duration":
+		return terminal.TimeDuration(nil)
+	case "word":
+		return terminal.Word(nil, "foo", 7)
+	default:
+		return terminal.Regexp(nil, "RE", "identifier", "[a-z]+[0-9]+", 0)
 	}
 }
 
